@@ -221,4 +221,22 @@ def emit(repo, spec, H):
         raise ValueError("gr_exprs: GRreadlut count[] assignments not found")
     defn("lut_dimX", ["nentries"], nat_expr(xs[0], lren, ["nentries"]))
     defn("lut_dimY", ["nentries"], nat_expr(ys[0], lren, ["nentries"]))
+
+    # ---------------- old-style run-length coder (hdf/src/dfrle.c) ----------------
+    rt = H.src(repo, "hdf/src/dfrle.c")
+    eb = H.func_body(rt, "DFCIrle")
+    db = H.func_body(rt, "DFCIunrle")
+
+    def grab(body, rx, what):
+        m = re.search(rx, body)
+        if not m:
+            raise ValueError("gr_exprs: dfrle.c: %s not found" % what)
+        return str(H.c_int(m.group(1)))
+    L.append("(* ---- hdf/src/dfrle.c: limits of DFCIrle / DFCIunrle ---- *)")
+    defn("dfrle_run_window", [], grab(eb, r"while\s*\(\s*i\s*&&\s*i\s*\+\s*(\d+)\s*>\s*len\s*&&\s*\*p\s*==\s*\*q\s*\)", "run scan loop"))
+    defn("dfrle_min_run", [], grab(eb, r"if\s*\(\s*q\s*-\s*p\s*>\s*(\d+)\s*\)", "run threshold"))
+    defn("dfrle_lit_flush", [], grab(eb, r"if\s*\(\s*p\s*-\s*begp\s*>\s*(\d+)\s*\)", "literal flush threshold"))
+    defn("dfrle_run_flag", [], grab(eb, r"\(\s*uint8\s*\)\s*\(\s*(\d+)\s*\|\s*\(\s*uint8\s*\)\s*\(\s*q\s*-\s*p\s*\)\s*\)", "run count byte"))
+    defn("dfrle_dec_flag", [], grab(db, r"if\s*\(\s*!\s*\(\s*cnt\s*&\s*(\d+)\s*\)\s*\)", "decoder flag test"))
+    defn("dfrle_dec_mask", [], grab(db, r"cnt\s*&=\s*(\d+)\s*;", "decoder count mask"))
     return L
